@@ -1,5 +1,10 @@
 """
 Facts about the client's custom-header handling in jsonrpclib/jsonrpc.py (C18).
+
+The facts describe what the code *does*, not how it is spelled: a small order-aware data-flow pass follows local
+aliases (`name = str(key).lower(); merged[name] = ...`, `transport = self.__transport; transport.pop_headers(h)`),
+so that renaming locals, introducing an alias, reordering independent statements or iterating `for key in headers`
+instead of `.items()` does not change a fact.
 """
 import ast
 
@@ -7,66 +12,304 @@ from __main__ import Fact, lean_bool, lean_list, lean_str
 
 PROPERTIES = ["C18"]
 
+STACK_ATTR = "additional_headers"
+
 
 def _readonly(src):
     cls = src.klass("jsonrpc", "TransportMixIn")
     if cls is None:
         return None
     v = src.assign_value("jsonrpc", "readonly_headers", scope=cls)
-    if isinstance(v, (ast.Tuple, ast.List)) and all(isinstance(e, ast.Constant) and isinstance(e.value, str) for e in v.elts):
+    if isinstance(v, (ast.Tuple, ast.List, ast.Set)) and all(isinstance(e, ast.Constant) and isinstance(e.value, str) for e in v.elts):
         return [e.value for e in v.elts]
+    if isinstance(v, ast.Call) and isinstance(v.func, ast.Name) and v.func.id in ("tuple", "list", "frozenset", "set") \
+            and len(v.args) == 1 and isinstance(v.args[0], (ast.Tuple, ast.List)) \
+            and all(isinstance(e, ast.Constant) and isinstance(e.value, str) for e in v.args[0].elts):
+        return [e.value for e in v.args[0].elts]
     return None
 
 
-def _is_lower_call(node):
-    return (isinstance(node, ast.Call) and isinstance(node.func, ast.Attribute) and node.func.attr == "lower")
+# ---- lower-cased keys while merging ---------------------------------------------------------
+
+def _lowered(node, env):
+    """Is the value of this expression certainly a lower-cased string?  `<expr>.lower()`, or a local name whose
+    latest assignment on every path to here was such a value."""
+    if isinstance(node, ast.Call) and isinstance(node.func, ast.Attribute) and node.func.attr == "lower" and not node.args:
+        return True
+    if isinstance(node, ast.Name):
+        return env.get(node.id, False)
+    if isinstance(node, ast.NamedExpr):
+        return _lowered(node.value, env)
+    return False
 
 
-def _merge_lowercases(fn):
-    """
-    True when every store into the merged dictionary made while iterating over the pushed dictionaries
-    uses a lower-cased key (so the merge itself is case-insensitive); False when a plain key or `update()`
-    is used there; None when the loop is not found.
-    """
+def _bind(target, is_low, env, stores):
+    """Assignment to `target`: a name is (re)bound, a subscript is a store into a dictionary."""
+    if isinstance(target, ast.Name):
+        env[target.id] = is_low
+    elif isinstance(target, ast.Subscript):
+        stores.append(_lowered(target.slice, env))
+    elif isinstance(target, (ast.Tuple, ast.List)):
+        for e in target.elts:
+            _bind(e, False, env, stores)
+    elif isinstance(target, ast.Starred):
+        _bind(target.value, False, env, stores)
+
+
+def _comp_key_lowered(arg, env):
+    """`{k.lower(): v for ...}` / `((k.lower(), v) for ...)` / `[(k.lower(), v) for ...]` given to update()/dict()."""
+    if isinstance(arg, ast.DictComp):
+        inner = dict(env)
+        for g in arg.generators:
+            _bind(g.target, False, inner, [])
+        return _lowered(arg.key, inner)
+    if isinstance(arg, (ast.GeneratorExp, ast.ListComp)) and isinstance(arg.elt, ast.Tuple) and len(arg.elt.elts) == 2:
+        inner = dict(env)
+        for g in arg.generators:
+            _bind(g.target, False, inner, [])
+        return _lowered(arg.elt.elts[0], inner)
+    return False
+
+
+def _calls_storing(node, env, stores):
+    """Method calls that write entries into a dictionary."""
+    for m in ast.walk(node):
+        if isinstance(m, ast.Call) and isinstance(m.func, ast.Attribute):
+            if m.func.attr == "update":
+                stores.append(len(m.args) == 1 and not m.keywords and _comp_key_lowered(m.args[0], env))
+            elif m.func.attr in ("setdefault", "__setitem__") and m.args:
+                stores.append(_lowered(m.args[0], env))
+        elif isinstance(m, ast.NamedExpr) and isinstance(m.target, ast.Name):
+            env[m.target.id] = _lowered(m.value, env)
+
+
+def _merge_envs(env, branches):
+    """After alternative branches a name is lower-cased only when it is on every branch."""
+    names = set()
+    for b in branches:
+        names.update(b)
+    for n in names:
+        env[n] = all(b.get(n, False) for b in branches)
+
+
+def _scan(stmts, env, stores):
+    """Walks statements in order; `env` maps a local name to "holds a lower-cased string now"; `stores` collects,
+    for every store into a dictionary, whether its key is lower-cased."""
+    for s in stmts:
+        if isinstance(s, ast.Assign):
+            _calls_storing(s.value, env, stores)
+            low = _lowered(s.value, env)
+            for t in s.targets:
+                _bind(t, low, env, stores)
+        elif isinstance(s, ast.AnnAssign):
+            if s.value is not None:
+                _calls_storing(s.value, env, stores)
+                _bind(s.target, _lowered(s.value, env), env, stores)
+        elif isinstance(s, ast.AugAssign):
+            _calls_storing(s.value, env, stores)
+            _bind(s.target, False, env, stores)
+        elif isinstance(s, (ast.For, ast.AsyncFor)):
+            _calls_storing(s.iter, env, stores)
+            _bind(s.target, False, env, stores)
+            before = dict(env)
+            _scan(s.body, env, stores)
+            # second pass: a name re-bound late in the body reaches the stores of the next iteration
+            again = []
+            _bind(s.target, False, env, again)
+            _scan(s.body, env, again)
+            stores.extend(again)
+            _merge_envs(env, [before, dict(env)])
+            _scan(s.orelse, env, stores)
+        elif isinstance(s, ast.While):
+            _calls_storing(s.test, env, stores)
+            before = dict(env)
+            _scan(s.body, env, stores)
+            again = []
+            _scan(s.body, env, again)
+            stores.extend(again)
+            _merge_envs(env, [before, dict(env)])
+            _scan(s.orelse, env, stores)
+        elif isinstance(s, ast.If):
+            _calls_storing(s.test, env, stores)
+            a, b = dict(env), dict(env)
+            _scan(s.body, a, stores)
+            _scan(s.orelse, b, stores)
+            _merge_envs(env, [a, b])
+        elif isinstance(s, (ast.With, ast.AsyncWith)):
+            for it in s.items:
+                _calls_storing(it.context_expr, env, stores)
+                if it.optional_vars is not None:
+                    _bind(it.optional_vars, False, env, stores)
+            _scan(s.body, env, stores)
+        elif isinstance(s, ast.Try):
+            before = dict(env)
+            _scan(s.body, env, stores)
+            branches = [dict(env)]
+            for h in s.handlers:
+                e = dict(before)
+                _merge_envs(e, [before, branches[0]])
+                if h.name:
+                    e[h.name] = False
+                _scan(h.body, e, stores)
+                branches.append(e)
+            e = dict(branches[0])
+            _scan(s.orelse, e, stores)
+            branches[0] = e
+            _merge_envs(env, branches)
+            _scan(s.finalbody, env, stores)
+        elif isinstance(s, (ast.FunctionDef, ast.AsyncFunctionDef, ast.ClassDef)):
+            env[s.name] = False
+        elif isinstance(s, ast.Delete):
+            for t in s.targets:
+                if isinstance(t, ast.Name):
+                    env[t.id] = False
+        else:
+            _calls_storing(s, env, stores)
+
+
+def _mentions_stack(node, aliases):
+    for m in ast.walk(node):
+        if isinstance(m, ast.Attribute) and m.attr == STACK_ATTR:
+            return True
+        if isinstance(m, ast.Name) and m.id in aliases:
+            return True
+    return False
+
+
+def _stack_loops(fn):
+    """The `for` loops of `fn` that iterate over the stack of pushed dictionaries (possibly through a local alias,
+    `list(...)`, `reversed(...)`, `enumerate(...)`, `range(len(...))`)."""
+    aliases = set()
     for n in ast.walk(fn):
-        if isinstance(n, ast.For) and isinstance(n.iter, ast.Attribute) and n.iter.attr == "additional_headers":
-            stores = []
-            for m in ast.walk(n):
-                if isinstance(m, ast.Call) and isinstance(m.func, ast.Attribute) and m.func.attr == "update":
-                    stores.append(False)
-                if isinstance(m, ast.Assign):
-                    for t in m.targets:
-                        if isinstance(t, ast.Subscript):
-                            stores.append(_is_lower_call(t.slice))
-            if not stores:
-                return None
-            return all(stores)
+        if isinstance(n, ast.Assign) and _mentions_stack(n.value, ()) and not isinstance(n.value, ast.Dict):
+            for t in n.targets:
+                if isinstance(t, ast.Name):
+                    aliases.add(t.id)
+    loops = []
+    for n in ast.walk(fn):
+        if isinstance(n, (ast.For, ast.AsyncFor)) and _mentions_stack(n.iter, aliases):
+            loops.append(n)
+    # keep outermost loops only
+    inner = set()
+    for lp in loops:
+        for m in ast.walk(lp):
+            if m is not lp and m in loops:
+                inner.add(m)
+    return [lp for lp in loops if lp not in inner]
+
+
+def _merge_lowercases_in(fn):
+    loops = _stack_loops(fn)
+    if not loops:
+        return None
+    stores = []
+    for lp in loops:
+        # names bound before the loop are not tracked: inside the loop they count as "not lower-cased"
+        _scan([lp], {}, stores)
+    if not stores:
+        return None
+    return all(stores)
+
+
+def _merge_lowercases(src, fn):
+    """
+    True when every store into a dictionary made while iterating over the pushed dictionaries uses a lower-cased
+    key — `d[<x>.lower()] = …`, or `d[name] = …` where the local `name` holds a `.lower()` result at that point, or
+    `d.update({<x>.lower(): … for …})` — so that the merge itself is case-insensitive.  False when a plain key, a
+    name re-bound to something else, or `update(<dictionary>)` is used there.  None when no such loop is found (the
+    loop is also looked for in the TransportMixIn methods that `emit_additional_headers` calls on `self`).
+    """
+    r = _merge_lowercases_in(fn)
+    if r is not None:
+        return r
+    results = []
+    for m in ast.walk(fn):
+        if isinstance(m, ast.Call) and isinstance(m.func, ast.Attribute) and isinstance(m.func.value, ast.Name) \
+                and m.func.value.id == "self":
+            callee = src.func("jsonrpc", "TransportMixIn." + m.func.attr)
+            if callee is not None and callee is not fn:
+                r = _merge_lowercases_in(callee)
+                if r is not None:
+                    results.append(r)
+    if results:
+        return all(results)
     return None
+
+
+# ---- pop in a finally around the yield ---------------------------------------------------------
+
+def _is_pop_call(node, aliases):
+    """`<anything>.pop_headers(...)`, a local alias of that bound method, or a direct `….additional_headers.pop()`."""
+    if not isinstance(node, ast.Call):
+        return False
+    f = node.func
+    if isinstance(f, ast.Attribute) and f.attr == "pop_headers":
+        return True
+    if isinstance(f, ast.Name) and f.id in aliases:
+        return True
+    if isinstance(f, ast.Attribute) and f.attr == "pop" and isinstance(f.value, ast.Attribute) and f.value.attr == STACK_ATTR:
+        return True
+    return False
+
+
+def _pops_unconditionally(stmts, aliases):
+    """Does this statement list call pop_headers on every path (not under an `if`, a loop or an `except`)?"""
+    for s in stmts:
+        if isinstance(s, (ast.Expr, ast.Assign, ast.AnnAssign, ast.Return)):
+            v = s.value
+            if v is not None and any(_is_pop_call(m, aliases) for m in ast.walk(v)):
+                return True
+        elif isinstance(s, (ast.With, ast.AsyncWith)):
+            if _pops_unconditionally(s.body, aliases):
+                return True
+        elif isinstance(s, ast.Try):
+            if _pops_unconditionally(s.finalbody, aliases) or _pops_unconditionally(s.body[:1], aliases):
+                return True
+        elif isinstance(s, ast.If):
+            if _pops_unconditionally(s.body, aliases) and _pops_unconditionally(s.orelse, aliases):
+                return True
+    return False
 
 
 def _pop_in_finally(fn):
-    """True when the `yield` of _additional_headers sits in a try whose finally calls pop_headers."""
+    """
+    True when the `yield` of _additional_headers sits in the body of a `try` whose `finally` calls pop_headers on
+    every path (directly, through a local alias of the transport or of the bound method) — the dictionary is then
+    popped however the block is left, for every class of exception.  False when the yield is not protected that way
+    (no try, `except Exception: pop; raise / else: pop`, a conditional pop).  None when there is no yield at all.
+    """
+    aliases = set()
     for n in ast.walk(fn):
-        if isinstance(n, ast.Try) and n.finalbody:
-            has_yield = any(isinstance(m, (ast.Yield, ast.YieldFrom)) for s in n.body for m in ast.walk(s))
-            pops = any(isinstance(m, ast.Attribute) and m.attr == "pop_headers" for s in n.finalbody for m in ast.walk(s))
-            if has_yield:
-                return bool(pops)
-    has_any_yield = any(isinstance(m, (ast.Yield, ast.YieldFrom)) for m in ast.walk(fn))
-    return False if has_any_yield else None
+        if isinstance(n, ast.Assign) and isinstance(n.value, ast.Attribute) and n.value.attr == "pop_headers":
+            for t in n.targets:
+                if isinstance(t, ast.Name):
+                    aliases.add(t.id)
+    yields = [m for m in ast.walk(fn) if isinstance(m, (ast.Yield, ast.YieldFrom))]
+    if not yields:
+        return None
+    protected = set()
+    for n in ast.walk(fn):
+        if isinstance(n, ast.Try) and n.finalbody and _pops_unconditionally(n.finalbody, aliases):
+            for s in n.body:
+                for m in ast.walk(s):
+                    if isinstance(m, (ast.Yield, ast.YieldFrom)):
+                        protected.add(m)
+    return all(y in protected for y in yields)
 
 
 def facts(src):
     ro = _readonly(src)
     emit = src.func("jsonrpc", "TransportMixIn.emit_additional_headers")
     blk = src.func("jsonrpc", "ServerProxy._additional_headers")
-    ml = _merge_lowercases(emit) if emit is not None else None
+    ml = _merge_lowercases(src, emit) if emit is not None else None
     pf = _pop_in_finally(blk) if blk is not None else None
     return [
         Fact("readonlyHeaders", "List String", None if ro is None else lean_list([lean_str(x) for x in ro]), ["C18", "C17"],
              "TransportMixIn.readonly_headers", json_value=ro),
         Fact("headerMergeLowercasesKeys", "Bool", None if ml is None else lean_bool(ml), ["C18"],
-             "emit_additional_headers: keys are lower-cased while merging the pushed dictionaries", json_value=ml),
+             "emit_additional_headers: every store into the merged dictionary made while iterating the pushed "
+             "dictionaries uses a lower-cased key (possibly through a local alias)", json_value=ml),
         Fact("headersBlockPopInFinally", "Bool", None if pf is None else lean_bool(pf), ["C18"],
-             "ServerProxy._additional_headers: pop_headers is called in a finally around the yield", json_value=pf),
+             "ServerProxy._additional_headers: pop_headers is called unconditionally in a finally around the yield",
+             json_value=pf),
     ]
